@@ -62,12 +62,13 @@ func VerifC19MiddlewareSettles() {
 	bank.SetBalance(models.ModuleAddress(erc20types.ModuleName), denom, verifAmount("escrow", 100))
 	tok.SetBalance(verifContract, aHex, tokA.BigInt())
 
-	channels := []string{"channel-0", "channel-7", "channel-70"}
+	channels := []string{"channel-1", "channel-11", "channel-7"} // the first two: one id is a decimal prefix of the other
 	nCh := rt.Bound("channelIds", 2, 3)
 	srcA := channels[rt.Choose("A.sourceChannel", nCh)]
 	dstA := channels[rt.Choose("A.destinationChannel", nCh)]
 	srcB := channels[rt.Choose("B.sourceChannel", nCh)]
 	seqA, seqB := rt.U64("A.sequence"), rt.U64("B.sequence")
+	rt.Assume(rt.And(seqA >= 1, seqA < 1000, seqB >= 1, seqB < 1000)) // decimal renderings of up to three digits
 	rt.Assume(rt.Or(srcA != srcB, seqA != seqB))
 	ek.SetIBCTransferRelation(ctx, srcA, seqA)
 	ek.SetIBCTransferRelation(ctx, srcB, seqB)
